@@ -171,7 +171,15 @@ func (x g) params(names []string) string {
 		if x.p(8) {
 			name = strings.ToUpper(name)
 		}
-		switch x.n(12) {
+		switch x.n(16) {
+		case 12: // a numeric edge value where a name, charset or boundary is expected
+			sb.WriteString(sep + name + "=" + x.pick(numEdge))
+		case 13: // RFC 2231 continuations and charset/language forms
+			sb.WriteString(sep + name + "*0*=" + x.pick([]string{"UTF-8''a%20b", "''", "utf-8'en'%C3%A4", x.pick(numEdge)}) + sep + name + "*1=" + x.pvalue())
+		case 14:
+			sb.WriteString(sep + name + "*0=" + x.pvalue() + sep + name + "*" + x.pick(numEdge) + "=" + x.pvalue())
+		case 15:
+			sb.WriteString(sep + name + "*=" + x.pick([]string{"UTF-8''x", "'", "%", x.pick(numEdge)}))
 		case 0:
 			sb.WriteString(sep + name) // no '='
 		case 1:
@@ -319,6 +327,7 @@ func (x g) leaf(sb *strings.Builder, withCD bool) {
 	x.field(sb, "Content-Type", x.ct(false, ""), 85)
 	x.field(sb, "Content-Transfer-Encoding", cte, 70)
 	x.field(sb, "Content-ID", x.cid(), 40)
+	x.extraFields(sb, 25)
 	sb.WriteString("\r\n")
 	sb.WriteString(x.body(cte))
 }
@@ -341,6 +350,7 @@ func (x g) multipart(sb *strings.Builder, b string, depth int) {
 				nb = b // same boundary as the parent
 			}
 			x.field(sb, "Content-Type", x.ct(true, nb), 97)
+			x.extraFields(sb, 15)
 			if x.p(10) {
 				x.field(sb, "Content-Disposition", x.cd(), 100)
 			}
@@ -371,7 +381,40 @@ var oddAddrs = []string{"undisclosed-recipients:;", "undisclosed-senders:;", "g:
 	"a@x.test (Name)", "\"a b\"@x.test", "<a@x.test>", "<>", ",", "a@x.test,", ",a@x.test", "=?UTF-8?Q?J=C3=BCrgen?= <j@x.test>", "=?UTF-8?B?SsO8cmdlbg==?= <j@x.test>",
 	"\"\" <e@x.test>", "a@[127.0.0.1]", "j\xc3\xbcrgen@x.test", "A <a@x.test> B", "<@r.test:a@x.test>", ":;", ";", "g:", "g: ;"}
 
+// values a refactoring might read as a number
+var numEdge = []string{"-1", "0", "1", "-9223372036854775808", "9223372036854775807", "9223372036854775808", "18446744073709551616",
+	"4294967296", "2147483648", "-2147483649", "1e9", "0x10", "+5", " 7 ", "007", "1.5", "NaN", "", "12abc", "٣", "99999999999999999999999999"}
+
+// headers the parser does not consult today but a refactoring may start to (sizes, counts, versions, routing)
+var extraHeaders = []string{"Content-Length", "Lines", "Content-MD5", "Content-Language", "Content-Location", "Content-Base",
+	"Return-Path", "Received", "X-Priority", "X-Spam-Score", "X-Size", "Content-Duration", "X-Content-Length", "Max-Forwards", "X-Mozilla-Status"}
+
+func (x g) extraFields(sb *strings.Builder, pct int) {
+	for k := x.n(3); k > 0; k-- {
+		if !x.p(pct) {
+			continue
+		}
+		h := x.pick(extraHeaders)
+		v := x.pick(numEdge)
+		switch h {
+		case "Content-MD5":
+			v = x.mostly(50, []string{"Q2hlY2sgSW50ZWdyaXR5IQ=="}, numEdge)
+		case "Received":
+			v = x.mostly(50, []string{"from a.test by b.test; Wed, 01 Jan 2025 10:00:00 +0000"}, numEdge)
+		case "Return-Path":
+			v = x.mostly(50, []string{"<a@x.test>", "<>"}, numEdge)
+		case "Content-Language", "Content-Location", "Content-Base":
+			v = x.mostly(50, []string{"en", "http://x.test/a", "de, en-US"}, numEdge)
+		}
+		x.field(sb, h, v, 100)
+		if x.p(10) {
+			x.field(sb, h, x.pick(numEdge), 100) // duplicated with another value
+		}
+	}
+}
+
 func (x g) topHeaders(sb *strings.Builder) {
+	x.extraFields(sb, 45)
 	x.field(sb, "From", x.mostly(92, []string{"a@x.test", "\"A B\" <a@x.test>", ""}, append([]string{"bad address", "<a@x.test>, <b@x.test>"}, oddAddrs...)), 90)
 	x.field(sb, "To", x.mostly(93, []string{"b@x.test", "b@x.test, \"C\" <c@x.test>", ""}, append([]string{"nonsense"}, oddAddrs...)), 80)
 	x.field(sb, "Cc", x.mostly(90, []string{"c@x.test", ""}, append([]string{"@@"}, oddAddrs...)), 20)
@@ -379,7 +422,7 @@ func (x g) topHeaders(sb *strings.Builder) {
 	x.field(sb, "Reply-To", x.mostly(60, []string{"r@x.test"}, oddAddrs), 8)
 	x.field(sb, "Date", x.mostly(96, []string{"Wed, 01 Jan 2025 10:00:00 +0000", "Wed, 01 Jan 2025 10:00:00 +0000 (UTC)", ""}, []string{"yesterday"}), 70)
 	x.field(sb, "Subject", x.pick([]string{"hello", "=?UTF-8?Q?h=C3=A9?=", "", "a\tb"}), 80)
-	x.field(sb, "MIME-Version", "1.0", 80)
+	x.field(sb, "MIME-Version", x.mostly(80, []string{"1.0"}, []string{"1.0 (comment)", "2.0", "", "(produced by x) 1.0", "1", "-1", "1.0.0"}), 80)
 	for _, h := range []string{"Message-ID", "User-Agent", "X-Mailer", "Importance", "Priority", "X-Priority", "Organization", "References", "In-Reply-To", "Precedence", "List-Unsubscribe", "X-MSMail-Priority", "List-Unsubscribe-Post"} {
 		x.field(sb, h, x.pick([]string{"<id@x.test>", "v", "high", ""}), 8)
 	}
@@ -566,6 +609,13 @@ func Run(r *hx.Run, replay []hx.Case) {
 	// 1. targeted witnesses (string entry point and reader entry point)
 	for _, w := range witnesses() {
 		runOne(r, r.NewID(), w, -1, 0, "witness", true)
+	}
+	// 1b. every extra header x every numeric edge value, at the top level and in a part header
+	for _, h := range extraHeaders {
+		for _, v := range numEdge {
+			runOne(r, r.NewID(), []byte("From: a@x.test\r\nTo: b@x.test\r\n"+h+": "+v+"\r\nMIME-Version: 1.0\r\nContent-Type: text/plain\r\n\r\nbody\r\n"), -1, 0, "extra-header", true)
+			runOne(r, r.NewID(), []byte("From: a@x.test\r\nMIME-Version: 1.0\r\nContent-Type: multipart/mixed; boundary=BB\r\n\r\n--BB\r\nContent-Type: text/plain\r\n"+h+": "+v+"\r\n\r\nbody\r\n--BB\r\nContent-Disposition: attachment; filename=\"a\"\r\n"+h+": "+v+"\r\n\r\nQUJD\r\n--BB--\r\n"), -1, 0, "extra-header", true)
+		}
 	}
 	// 2. grammar-based messages
 	for i := 0; i < nGrammar && !r.Expired() && !hung; i++ {
